@@ -128,6 +128,7 @@ def check(ctx):
         ctx.sample({"proto": j["proto"], "workers": j["workers"], "classes": okr["class"], "decoded_count": okr["decoded_count"],
                     "templates": len(j["templates"]), "events_tail": okr["events"][-6:]})
     # ---- end to end
+    c12.sched_stage(ctx, thorough)      # TLC schedules replayed move by move: decoded count and what the producer took after every move
     backlog_stage(ctx, thorough)
     end_to_end(ctx, thorough)
 
